@@ -402,3 +402,63 @@ package template
 //@   returns#pieces forall k int :: 0 <= k && k < len(m.Returns) ==> params[k] == ptype(m.Returns[k])
 //@   loop 0: invariant len(params) == len(m.Returns) && (forall k int :: 0 <= k && k < $i ==> params[k] == ptype(m.Returns[k]))
 //@   assigns nothing
+
+// ---- the rest of the data model that templates call (C14; PkgQualifier and AddImport: C15, C01) ---------
+//@ func (Method).ReturnStatement props=C14
+//@   ensures result == (len(m.Returns) > 0 ? "return" : "")
+//@   assigns nothing
+//@ func (Method).HasParams props=C14
+//@   ensures result == (len(m.Params) > 0)
+//@   assigns nothing
+//@ func (Method).HasReturns props=C14
+//@   ensures result == (len(m.Returns) > 0)
+//@   assigns nothing
+//@ func (Method).AcceptsContext props=C14
+//@   ensures result == (len(m.Params) > 0 && ptype(m.Params[0]) == "context.Context")
+//@   assigns nothing
+//@ func (Method).ReturnsError props=C14
+//@   ensures result <==> (exists k int :: 0 <= k && k < len(m.Returns) && ptype(m.Returns[k]) == "error")
+//@   loop 0: invariant forall k int :: 0 <= k && k < $i ==> ptype(m.Returns[k]) != "error"
+//@   assigns nothing
+// The exported call-list accessors pass their arguments on unchanged: all parameters (end == -1), with or
+// without the ellipsis on a variadic last parameter.
+//@ func (Method).ArgCallList props=C14
+//@   site argCallListSlice: $0 == 0 && $1 == -1 && $2 == true
+//@   assigns nothing
+//@ func (Method).ArgCallListNoEllipsis props=C14
+//@   site argCallListSlice: $0 == 0 && $1 == -1 && $2 == false
+//@   assigns nothing
+//@ func (Method).ArgCallListSlice props=C14
+//@   requires 0 <= start && start <= len(m.Params) && end <= len(m.Params) && (end < 0 || start <= end)
+//@   site argCallListSlice: $0 == start && $1 == end && $2 == true
+//@   assigns nothing
+//@ func (Method).ArgCallListSliceNoEllipsis props=C14
+//@   requires 0 <= start && start <= len(m.Params) && end <= len(m.Params) && (end < 0 || start <= end)
+//@   site argCallListSlice: $0 == start && $1 == end && $2 == false
+//@   assigns nothing
+//@ func (Interfaces).ImplementsSomeMethod props=C14
+//@   ensures result <==> (exists k int :: 0 <= k && k < len(m) && len(m[k].Methods) > 0)
+//@   loop 0: invariant forall k int :: 0 <= k && k < $i ==> !(len(m[k].Methods) > 0)
+//@   assigns nothing
+// The type-parameter lists of a generic mock: "[" + one piece per type parameter, separated by ", " + "]";
+// tplist(ps, n, withType) is that fold over the first n type parameters (its two equations define it).
+//@ spec tplist(ps []TypeParam, n int, withType bool) string
+//@ axiom tplist_zero: forall ps []TypeParam, w bool :: tplist(ps, 0, w) == ""
+//@ axiom tplist_step: forall ps []TypeParam, n int, w bool :: 0 <= n && n < len(ps) ==> tplist(ps, n + 1, w) == tplist(ps, n, w) + (n != 0 ? ", " : "") + template_funcs.Exported(pname(ps[n].Param)) + (w ? " " + ptype(ps[n].Param) : "")
+//@ func (Interface).TypeInstantiation props=C14,C02
+//@   ensures result == (len(m.TypeParams) == 0 ? "" : "[" + tplist(m.TypeParams, len(m.TypeParams), false) + "]")
+//@   loop 0: invariant s == "[" + tplist(m.TypeParams, $i, false)
+//@   assigns nothing
+//@ func (Interface).TypeConstraint props=C14,C02
+//@   ensures result == (len(m.TypeParams) == 0 ? "" : "[" + tplist(m.TypeParams, len(m.TypeParams), true) + "]")
+//@   loop 0: invariant s == "[" + tplist(m.TypeParams, $i, true)
+//@   assigns nothing
+// Imports handed to templates: PkgQualifier finds the entry by path and returns its qualifier.
+//@ func (Packages).PkgQualifier props=C15,C01
+//@   ensures#missing err != nil <==> (forall k int :: 0 <= k && k < len(p) ==> pathOf(p[k]) != pkgPath)
+//@   ensures#found err == nil ==> (exists k int :: 0 <= k && k < len(p) && pathOf(p[k]) == pkgPath && result == qual(p[k]))
+//@   loop 0: invariant forall k int :: 0 <= k && k < $i ==> pathOf(p[k]) != pkgPath
+//@   assigns nothing
+//@ func NewData props=C14
+//@   ensures result.PkgName == pkgName && result.SrcPkgQualifier == srcPkgQualifier && result.Interfaces == interfaces && result.TemplateData == templateData && result.Registry == registry
+//@   assigns nothing
